@@ -156,7 +156,7 @@ def run(ctx):
     quick = ctx.tier == "quick"
     known = load_known("C09")
     atoms = ["a", "b"]
-    n, ln = (2, 2) if quick else (3, 2)
+    n, ln = (2, 2) if quick else (2, 3)      # (3 changes x 2 calls: 68 M initial states, 20 min per loop form - measured; not used)
     states = trans = 0
     for lib in ("0", "1"):
         r = ctx.tlc("History", CFG_MC % dict(atoms=q(atoms), n=n, len=ln, lib=lib), "mc-history-lib" + lib, workers=NCPU, timeout=3000)
